@@ -94,6 +94,22 @@ pub struct World {
     /// (committed-state digest | query) -> (answer, kind of handle that gave it)
     pub query_log: std::collections::BTreeMap<String, (Vec<crate::reads::HitKey>, String)>,
     pub extra_probes: std::collections::BTreeMap<String, u64>,
+    /// files the scenario planted in the directory on purpose (sidecars)
+    pub planted: Vec<String>,
+    /// hash of the file when the current read-only handle was opened
+    pub ro_bytes: Option<String>,
+    pub bound: Option<u64>,
+    pub must_refuse: bool,
+    pub puts_since_commit: u64,
+    pub applied_puts_last_commit: u64,
+    /// Some(property) while the file is exactly as vacuum / doctor left it
+    pub verify_expect: Option<&'static str>,
+    pub verify_expect_next: Option<&'static str>,
+}
+
+/// true when the library will store this payload whole (no chunk plan)
+fn chunk_free(p: &[u8]) -> bool {
+    std::str::from_utf8(p).is_err()
 }
 
 pub const FILE: &str = "m.mv2";
@@ -179,6 +195,14 @@ impl World {
             plain: std::env::var("MEMSIM_PLAIN").is_ok(),
             query_log: Default::default(),
             extra_probes: Default::default(),
+            planted: Vec::new(),
+            ro_bytes: None,
+            bound: None,
+            must_refuse: false,
+            puts_since_commit: 0,
+            applied_puts_last_commit: 0,
+            verify_expect: None,
+            verify_expect_next: None,
         };
         if !w.plain {
             shim::start(&w.dir, w.fault.clone(), w.fault_seed);
@@ -308,6 +332,9 @@ impl World {
             shim::mark(Kind::End, i as u64);
         }
         let log_e = if seg == self.seg { shim::log_len() } else { 0 };
+        if seg == self.seg && !skipped && self.panicked.is_none() {
+            self.post_op_invariants(i, op, ok, err.as_deref(), log_b);
+        }
         if !ok && !skipped {
             self.probes.op_errors += 1;
         }
@@ -338,9 +365,99 @@ impl World {
     /// returns (ok, skipped, err)
     fn exec(&mut self, i: usize, op: &Op, log_b: usize) -> (bool, bool, Option<String>) {
         match op {
+            Op::TicketRel { seq, slack } => {
+                if self.mem.is_none() || self.ro {
+                    return (false, true, None);
+                }
+                // weakest reading: the capacity is granted before the puts it must bound, so a
+                // ticket that shrinks the capacity below data already accepted is not generated
+                if !self.model.pending.is_empty() {
+                    return (false, true, None);
+                }
+                // capacity = current end of the committed payload region + slack
+                let mem = self.mem.as_mut().unwrap();
+                let mut end = 4096 + 65536u64;
+                for id in 0..mem.frame_count() as u64 {
+                    if let Ok(f) = mem.frame_by_id(id) {
+                        if f.payload_length > 0 {
+                            end = end.max(f.payload_offset + f.payload_length);
+                        }
+                    }
+                }
+                let cap = end + *slack;
+                self.exec(i, &Op::Ticket { issuer: "sim".into(), seq: *seq, capacity: Some(cap) }, log_b)
+            }
+            Op::PlantSidecar { name } => {
+                shim::pause();
+                let _ = std::fs::write(format!("{}/{}", self.dir, name), b"junk");
+                shim::resume();
+                if !self.planted.contains(name) {
+                    self.planted.push(name.clone());
+                }
+                (true, false, None)
+            }
+            Op::RemoveSidecar { name } => {
+                shim::pause();
+                let _ = std::fs::remove_file(format!("{}/{}", self.dir, name));
+                shim::resume();
+                self.planted.retain(|n| n != name);
+                (true, false, None)
+            }
+            Op::Bind { memory } => {
+                if self.mem.is_none() || self.ro {
+                    return (false, true, None);
+                }
+                let b = memvid_core::types::MemoryBinding { memory_id: uuid::Uuid::from_u128(*memory as u128 | (1u128 << 100)), memory_name: format!("mem{memory}"), bound_at: chrono::DateTime::<chrono::Utc>::from_timestamp(1_700_000_000, 0).unwrap(), api_url: "https://example.invalid".into() };
+                match self.mem.as_mut().unwrap().set_memory_binding_only(b) {
+                    Ok(()) => {
+                        self.bound = Some(*memory);
+                        (true, false, None)
+                    }
+                    Err(e) => (false, false, Some(errs(&e))),
+                }
+            }
+            Op::SignedTicket { issuer, seq, capacity, memory, sig_seed } => {
+                if self.mem.is_none() || self.ro {
+                    return (false, true, None);
+                }
+                // the vendor's private key is not available: every signature here is forged
+                let mut r = crate::rng::Rng::new(*sig_seed, "sig");
+                let sig: Vec<u8> = (0..64).map(|_| r.below(256) as u8).collect();
+                let t = memvid_core::types::SignedTicket::new(issuer.clone(), *seq, 3600, *capacity, uuid::Uuid::from_u128(*memory as u128 | (1u128 << 100)), sig);
+                let before = self.mem.as_ref().unwrap().current_ticket();
+                match self.mem.as_mut().unwrap().apply_signed_ticket(t) {
+                    Ok(()) => {
+                        self.viol(&["C25"], "forged-signed-ticket-rejected", format!("a signed ticket with a random 64-byte signature was accepted (seq {seq}, bound={:?})", self.bound), i);
+                        (true, false, None)
+                    }
+                    Err(e) => {
+                        let after = self.mem.as_ref().unwrap().current_ticket();
+                        if after.seq_no != before.seq_no || after.capacity_bytes != before.capacity_bytes || after.issuer != before.issuer {
+                            self.viol(&["C25"], "rejected-ticket-changes-nothing", format!("rejected signed ticket changed the ticket state: {:?} -> {:?}", before.seq_no, after.seq_no), i);
+                        }
+                        self.probes_extra("forged_tickets_rejected", 1);
+                        (false, false, Some(errs(&e)))
+                    }
+                }
+            }
             Op::Create => {
                 if self.mem.is_some() {
                     return (false, true, None);
+                }
+                if self.forbidden_sidecar_present() {
+                    return match Memvid::create(&self.path) {
+                        Ok(m) => {
+                            self.mem = Some(m);
+                            self.model = Model::default();
+                            self.model.exists = true;
+                            self.viol(&["C19"], "sidecar-refused", format!("create ran although a forbidden sidecar exists: {:?}", self.planted), i);
+                            (true, false, None)
+                        }
+                        Err(e) => {
+                            self.probes_extra("sidecar_refusals", 1);
+                            (false, false, Some(errs(&e)))
+                        }
+                    };
                 }
                 match Memvid::create(&self.path) {
                     Ok(m) => {
@@ -349,6 +466,8 @@ impl World {
                         self.model = Model::default();
                         self.model.exists = true;
                         self.model.lex_enabled = true;
+                        // a fresh memory carries the built-in free-tier ticket with sequence 1
+                        self.model.ticket_seq = 1;
                         (true, false, None)
                     }
                     Err(e) => {
@@ -366,6 +485,20 @@ impl World {
                 let ro = matches!(op, Op::OpenRo);
                 let had_pending = !self.model.pending.is_empty();
                 let r = if ro { Memvid::open_read_only(&self.path) } else { Memvid::open(&self.path) };
+                if self.forbidden_sidecar_present() {
+                    return match r {
+                        Ok(m) => {
+                            drop(m);
+                            self.model.apply_pending();
+                            self.viol(&["C19"], "sidecar-refused", format!("open ran although a forbidden sidecar exists: {:?}", self.planted), i);
+                            (true, false, None)
+                        }
+                        Err(e) => {
+                            self.probes_extra("sidecar_refusals", 1);
+                            (false, false, Some(errs(&e)))
+                        }
+                    };
+                }
                 match r {
                     Ok(m) => {
                         self.mem = Some(m);
@@ -395,6 +528,19 @@ impl World {
                 let Some(m) = self.mem.take() else { return (false, true, None) };
                 let ro = self.ro;
                 drop(m);
+                if ro && !self.plain {
+                    // C18: the file's bytes are what they were when the read-only handle was opened
+                    let wr = self.writes_since(log_b);
+                    if !wr.is_empty() {
+                        self.viol(&["C18"], "read-only-no-writes", format!("dropping a read-only handle issued write-class syscalls: {:?}", wr.iter().take(4).collect::<Vec<_>>()), i);
+                    }
+                    let now = std::fs::read(&self.path).ok().map(|b| blake3::hash(&b).to_hex().to_string());
+                    if self.ro_bytes.is_some() && now != self.ro_bytes {
+                        self.viol(&["C18"], "read-only-bytes-unchanged", "the file's bytes changed while only a read-only handle was open".into(), i);
+                    }
+                    self.ro_bytes = None;
+                    self.ro = false;
+                }
                 if !ro {
                     // Drop commits when dirty
                     self.model.apply_pending();
@@ -487,6 +633,7 @@ impl World {
                     Ok(()) => {
                         self.model.apply_pending();
                         self.probes.vacuum += 1;
+                        self.verify_expect_next = Some("C42");
                         self.compare_full(i, "vacuum");
                         (true, false, None)
                     }
@@ -509,6 +656,9 @@ impl World {
                             self.model.apply_pending();
                         }
                         self.probes.doctor += 1;
+                        if !d.dry_run {
+                            self.verify_expect_next = Some(if d.vacuum { "C42" } else { "C21" });
+                        }
                         (true, false, None)
                     }
                     Err(e) => (false, false, Some(errs(&e))),
@@ -520,9 +670,14 @@ impl World {
                 }
                 match Memvid::verify(&self.path, *deep) {
                     Ok(rep) => {
-                        if rep.overall_status != VerificationStatus::Passed && self.model.pending.is_empty() && !self.error_faults {
-                            let failed: Vec<String> = rep.checks.iter().filter(|c| c.status != VerificationStatus::Passed).map(|c| format!("{}:{:?}", c.name, c.details)).collect();
-                            self.viol(&["C42", "C21"], "verify-passes", format!("verify(deep={deep}) = {:?} on a healthy file: {}", rep.overall_status, failed.join("; ")), i);
+                        // "verifies as Passed" is stated for a file as vacuum / doctor leave it; any
+                        // writable open or mutation after that clears the expectation
+                        if let Some(p) = self.verify_expect {
+                            self.probes_extra("verify_after_maintenance", 1);
+                            if rep.overall_status != VerificationStatus::Passed && self.model.pending.is_empty() && !self.error_faults {
+                                let failed: Vec<String> = rep.checks.iter().filter(|c| c.status == VerificationStatus::Failed).map(|c| format!("{}:{:?}", c.name, c.details)).collect();
+                                self.viol(&[p], "verify-passes", format!("verify(deep={deep}) = {:?} right after {}: {}", rep.overall_status, if p == "C42" { "vacuum" } else { "doctor" }, failed.join("; ")), i);
+                            }
                         }
                         (true, false, None)
                     }
@@ -566,14 +721,17 @@ impl World {
                             self.viol(&["C25"], "ticket-seq-monotonic", format!("ticket seq {seq} accepted after {}", self.model.ticket_seq), i);
                         }
                         self.model.ticket_seq = *seq;
-                        if let Some(c) = capacity {
-                            self.model.capacity = Some(*c);
-                        }
+                        // no capacity in the ticket = back to the tier default
+                        self.model.capacity = *capacity;
+                        self.probes_extra("tickets_accepted", 1);
                         (true, false, None)
                     }
                     Err(e) => {
-                        if expect_ok && !self.error_faults_now() {
-                            self.viol(&["C25"], "ticket-accepted", format!("fresh ticket seq {seq} rejected: {}", errs(&e)), i);
+                        // the statement is an only-if: a rejection is never a violation by itself
+                        if expect_ok {
+                            self.probes_extra("fresh_tickets_rejected", 1);
+                        } else {
+                            self.probes_extra("stale_tickets_rejected", 1);
                         }
                         (false, false, Some(errs(&e)))
                     }
@@ -634,6 +792,113 @@ impl World {
         }
     }
 
+    fn forbidden_sidecar_present(&self) -> bool {
+        let f = [format!("{FILE}-wal"), format!("{FILE}-shm"), format!("{FILE}-lock"), format!("{FILE}-journal"), format!(".{FILE}.wal"), format!(".{FILE}.shm"), format!(".{FILE}.lock"), format!(".{FILE}.journal")];
+        self.planted.iter().any(|p| f.contains(p))
+    }
+
+    /// Write-class syscalls on the simulated directory since log index `b` (markers excluded).
+    fn writes_since(&self, b: usize) -> Vec<String> {
+        shim::with_rec(|r| {
+            r.log[b.min(r.log.len())..]
+                .iter()
+                .filter(|o| matches!(o.kind, Kind::Write | Kind::Trunc | Kind::Create | Kind::Rename | Kind::Unlink))
+                .map(|o| format!("{:?}@{}+{}{}", o.kind, o.off, o.len, if o.name.is_empty() { String::new() } else { format!(" {}", o.name) }))
+                .collect()
+        })
+        .unwrap_or_default()
+    }
+
+    /// Invariants evaluated after every API call that ran (C18, C19, C24, C25).
+    fn post_op_invariants(&mut self, i: usize, op: &Op, ok: bool, err: Option<&str>, log_b: usize) {
+        if self.plain {
+            return;
+        }
+        // bookkeeping: is the file still exactly as vacuum / doctor left it?
+        match op {
+            Op::Vacuum | Op::Doctor(_) => {
+                if ok {
+                    self.verify_expect = self.verify_expect_next.take();
+                }
+            }
+            Op::Close | Op::Verify { .. } | Op::Check | Op::OpenRo | Op::Search(_) | Op::Timeline(_) | Op::SearchVec { .. } => {}
+            _ => self.verify_expect = None,
+        }
+        if matches!(op, Op::Commit | Op::Open | Op::Close | Op::Vacuum | Op::Abandon) {
+            self.applied_puts_last_commit = self.puts_since_commit;
+            self.puts_since_commit = 0;
+        }
+        // ---- C19: nothing but the caller's .mv2 files in the directory
+        let listing = disk::list_dir(&self.dir);
+        let unexpected: Vec<&String> = listing.iter().filter(|n| n.as_str() != FILE && !self.planted.contains(n)).collect();
+        if !unexpected.is_empty() {
+            let class = if ok { "after-success" } else { "after-error" };
+            self.viol_sig(&["C19"], "single-file", class, format!("after {} ({}): directory holds {:?}", op.kind_name(), if ok { "ok" } else { "error" }, listing), i);
+        }
+        self.probes_extra("dir_listings", 1);
+        // ---- C18: a read-only handle never writes
+        if self.ro && self.mem.is_some() && !matches!(op, Op::OpenRo) {
+            let wr = self.writes_since(log_b);
+            if !wr.is_empty() {
+                self.viol(&["C18"], "read-only-no-writes", format!("{} on a read-only handle issued write-class syscalls: {:?}", op.kind_name(), wr.iter().take(4).collect::<Vec<_>>()), i);
+            }
+        }
+        if matches!(op, Op::OpenRo) && ok {
+            let wr = self.writes_since(log_b);
+            if !wr.is_empty() {
+                self.viol(&["C18"], "read-only-no-writes", format!("open_read_only issued write-class syscalls: {:?}", wr.iter().take(4).collect::<Vec<_>>()), i);
+            }
+            self.ro_bytes = std::fs::read(&self.path).ok().map(|b| blake3::hash(&b).to_hex().to_string());
+            self.probes_extra("ro_byte_snapshots", 1);
+        }
+        // verify() is a read API too (static, opens the file itself)
+        if matches!(op, Op::Verify { .. }) {
+            let wr = self.writes_since(log_b);
+            if !wr.is_empty() {
+                self.viol(&["C18"], "verify-no-writes", format!("verify issued write-class syscalls: {:?}", wr.iter().take(4).collect::<Vec<_>>()), i);
+            }
+        }
+        // ---- C25 / C24: a rejected ticket or a refused put changes nothing
+        if !ok {
+            let rejected_ticket = matches!(op, Op::Ticket { .. } | Op::SignedTicket { .. });
+            let capacity = err.is_some_and(|e| e.contains("apacity"));
+            if rejected_ticket || (capacity && matches!(op, Op::Put(_) | Op::Update { .. } | Op::UpdateUri { .. })) {
+                let wr = self.writes_since(log_b);
+                if !wr.is_empty() && !self.error_faults_now() {
+                    let p: &[&str] = if rejected_ticket { &["C25"] } else { &["C24"] };
+                    self.viol(p, "rejected-call-writes-nothing", format!("{} was rejected ({}) but wrote: {:?}", op.kind_name(), err.unwrap_or(""), wr.iter().take(4).collect::<Vec<_>>()), i);
+                }
+                self.probes_extra("rejected_calls_monitored", 1);
+            }
+        }
+        // ---- C24: payloads never end beyond the granted capacity
+        if let (Some(cap), Some(mem)) = (self.model.capacity, self.mem.as_mut()) {
+            if matches!(op, Op::Commit | Op::Put(_) | Op::Update { .. } | Op::UpdateUri { .. } | Op::Open | Op::Close | Op::Vacuum) {
+                let n = mem.frame_count() as u64;
+                let mut worst: Option<(u64, u64)> = None;
+                for id in 0..n {
+                    if let Ok(f) = mem.frame_by_id(id) {
+                        let end = f.payload_offset + f.payload_length;
+                        if f.payload_length > 0 && end > cap && worst.is_none_or(|w| end > w.1) {
+                            worst = Some((id, end));
+                        }
+                    }
+                }
+                let reported = mem.stats().ok().map(|st| st.capacity_bytes);
+                self.probes_extra("capacity_checks", 1);
+                if let Some((id, end)) = worst {
+                    let sig = if self.applied_puts_last_commit > 1 { "several-pending-puts" } else { "placed-after-index-region" };
+                    self.viol_sig(&["C24"], "payload-within-capacity", sig, format!("after {}: frame {id} payload ends at {end}, capacity is {cap} ({} puts were applied by the last commit)", op.kind_name(), self.applied_puts_last_commit), i);
+                }
+                if let Some(rc) = reported {
+                    if rc != cap {
+                        self.viol(&["C24", "C25"], "capacity-reported", format!("stats.capacity_bytes={rc} but the accepted ticket granted {cap}"), i);
+                    }
+                }
+            }
+        }
+    }
+
     /// The committed, active, non-chunk frame currently carrying `uri` (for generator ops that
     /// name documents rather than frame ids).
     pub fn resolve_uri(&self, uri: &str) -> Option<u64> {
@@ -666,6 +931,24 @@ impl World {
         if let Some(pu) = &spec.parent_uri {
             opts.parent_id = self.resolve_uri(pu);
         }
+        // C24: an incompressible payload that cannot fit below the granted capacity must be refused
+        let mut must_refuse = false;
+        if let (Some(cap), Some(p), Some(pay)) = (self.model.capacity, &payload, &spec.pay) {
+            if pay.kind == PK::Bin && chunk_free(p) {
+                let mem = self.mem.as_mut().unwrap();
+                let mut end = 4096 + 65536u64;
+                for id in 0..mem.frame_count() as u64 {
+                    if let Ok(f) = mem.frame_by_id(id) {
+                        if f.payload_length > 0 {
+                            end = end.max(f.payload_offset + f.payload_length);
+                        }
+                    }
+                }
+                // random bytes do not compress: the stored size is at least the payload size
+                must_refuse = end + p.len() as u64 > cap + 64;
+            }
+        }
+        self.must_refuse = must_refuse;
         let predicted_next = self.model.next_id();
         let real_next = self.mem.as_ref().unwrap().next_frame_id();
         if !self.model.unpredictable && real_next != predicted_next {
@@ -736,6 +1019,10 @@ impl World {
                 if dim_conflict {
                     self.viol(&["C13"], "dimension-checked", "put with a conflicting embedding dimension succeeded".into(), i);
                 }
+                if self.must_refuse {
+                    self.viol(&["C24"], "oversized-put-refused", format!("an incompressible {}-byte payload that cannot fit below the granted capacity {:?} was accepted", payload.as_ref().map(|p| p.len()).unwrap_or(0), self.model.capacity), i);
+                }
+                self.puts_since_commit += 1;
                 if let Some(d) = dim_in {
                     if self.model.vec_dim.is_none() {
                         self.model.vec_dim = Some(d);
